@@ -118,6 +118,10 @@ func genFleetScript(g *Gen, n int, native bool, steps int, withFaults, withResta
 		default:
 			if withRestart && f.started[id] && f.r.Intn(3) == 0 {
 				f.lines = append(f.lines, fmt.Sprintf("loop.restart %s %s", id, b2s(f.r.Intn(2) == 0)))
+				if f.r.Intn(2) == 0 {
+					// the first downloads after the restart fail and are retried
+					f.lines = append(f.lines, fmt.Sprintf("loop.loadfail %s %d", id, 1+f.r.Intn(3)))
+				}
 				f.started[id] = false
 				if f.r.Intn(2) == 0 {
 					created[id] = created[id] && false
